@@ -89,6 +89,7 @@ type Gen struct {
 	hyps      []*hyp
 	seenIdx   []string
 	seenSet   map[string]bool
+	seenKey   map[string]map[string]bool // index term -> element heaps it was used on
 	lockHook func(key string, common *ssa.CallCommon, args []*SV, st *State, reach string, pos token.Pos)
 }
 
@@ -502,6 +503,9 @@ func (g *Gen) run() {
 	env.old = nil
 	var pres []string
 	for _, cl := range g.con.Requires {
+		if cl.Assumed {
+			g.trusted["assumed precondition (resource bound) of "+g.shortName()+": "+cl.Src] = true
+		}
 		if !clauseActive(cl, g.fmode) {
 			continue
 		}
@@ -795,10 +799,13 @@ func (g *Gen) loopHead(li *loopInfo, st *State, reach string) *State {
 	env := g.envAt(st, nil)
 	env.localsFirst = true
 	env.loopOld = st
-	for i, cl := range spec.Invariants {
-		if !clauseActive(cl, g.fmode) {
-			continue
+	var initCls []*Clause
+	for _, cl := range spec.Invariants {
+		if clauseActive(cl, g.fmode) {
+			initCls = append(initCls, g.partClauses(cl)...)
 		}
+	}
+	for i, cl := range initCls {
 		s := g.mustEval(cl, env)
 		lab := cl.Label
 		if lab == "" {
@@ -882,10 +889,13 @@ func (g *Gen) backEdge(li *loopInfo, st *State, cond string, from *ssa.BasicBloc
 	env.localsFirst = true
 	env.loopOld = g.loopEntry[li]
 	pos := li.pos
-	for i, cl := range spec.Invariants {
-		if !clauseActive(cl, g.fmode) {
-			continue
+	var keepCls []*Clause
+	for _, cl := range spec.Invariants {
+		if clauseActive(cl, g.fmode) {
+			keepCls = append(keepCls, g.partClauses(cl)...)
 		}
+	}
+	for i, cl := range keepCls {
 		s := g.mustEval(cl, env)
 		lab := cl.Label
 		if lab == "" {
@@ -1188,6 +1198,13 @@ func (g *Gen) constVal(v *ssa.Const) *SV {
 
 func (g *Gen) define(v ssa.Value, term string) *SV {
 	t := v.Type()
+	if term != "" && !strings.ContainsAny(term, " ()") && (g.declared[term] || isNumeral(term)) {
+		// already a name (e.g. a load of a local variable that holds a named value): no new constant,
+		// so that equal index terms are also syntactically equal for the instantiation heuristics
+		sv := &SV{S: term, T: t}
+		g.vals[v] = sv
+		return sv
+	}
 	n := "v." + sanitize(v.Name()) + "." + fmt.Sprint(g.curBlock.Index)
 	if g.declared[n] {
 		n = g.fresh(n)
@@ -1423,6 +1440,41 @@ func sharedElemSorts(c *Ctx, fn *ssa.Function) map[string]bool {
 		if len(ts) > 1 {
 			out[so] = true
 		}
+	}
+	// a contract (of fn or of a callee) that speaks about arrays by element type needs the tags
+	mentions := func(con *Contract) bool {
+		if con == nil {
+			return false
+		}
+		for _, cl := range con.Ensures {
+			if strings.Contains(cl.Src, "keptOfType") {
+				return true
+			}
+		}
+		for _, ls := range con.Loops {
+			for _, cl := range ls.Invariants {
+				if strings.Contains(cl.Src, "keptOfType") {
+					return true
+				}
+			}
+		}
+		return false
+	}
+	need := mentions(c.cs.Funcs[funcKey(fn)])
+	for _, b := range fn.Blocks {
+		for _, in := range b.Instrs {
+			if call, ok := in.(ssa.CallInstruction); ok {
+				if callee := call.Common().StaticCallee(); callee != nil && mentions(c.cs.Funcs[funcKey(callee)]) {
+					need = true
+				}
+			}
+		}
+	}
+	if need {
+		for so := range bySort {
+			out[so] = true
+		}
+		out["Int"] = true
 	}
 	return out
 }
@@ -1688,6 +1740,8 @@ func (g *Gen) keepPrivate(preHeaps map[string]string, st *State, at ssa.Instruct
 					fmt.Fprintf(os.Stderr, "frame: %s at call %s: keep=%v (%s)\n", k, funcKey(callee), keep, g.prog.whyMayWrite(callee, k))
 				}
 				if keep {
+					// the callee's postconditions were stated over the havoc'd name: identify the two
+					g.addFact("(= " + cur + " " + pre + ")")
 					st.heaps[k] = pre
 					g.trusted["a struct field is written only by functions that contain a store to it (directly, through a derived address, or by overwriting the whole struct) and only by code of its own package or, if exported, of packages that transitively import it; reflective writes only by the json/gob/xml/yaml/toml decoders (a callee that can reach one keeps nothing), none through unsafe: field heaps are kept across calls that cannot reach such code in the VTA-refined CHA call graph"] = true
 				}
@@ -1762,4 +1816,16 @@ func (g *Gen) keepPrivate(preHeaps map[string]string, st *State, at ssa.Instruct
 			keep(a, sv.S, keys)
 		}
 	}
+}
+
+func isNumeral(s string) bool {
+	if s == "" {
+		return false
+	}
+	for _, r := range s {
+		if r < '0' || r > '9' {
+			return false
+		}
+	}
+	return true
 }
